@@ -1,11 +1,14 @@
 ---------------------------- MODULE Trace_Freshness ----------------------------
 (* Trace validation for C20.  The trace is a sequence of per-key histories:           *)
-(*   {"ev":"reset","key":name,"kind":k,"cfg":{..}}   a new key: new monitor            *)
-(*   {"ev":"emit","out":hex,"aux":str, "p":process,"h":handle,"inst":primitive,"k":n}   *)
+(*   {"ev":"reset","key":name,"kind":k,"cfg":{..},"classes":[..]}   a new key: a new      *)
+(*                                                family of monitors (whole history +    *)
+(*                                                one per input class)                    *)
+(*   {"ev":"emit","out":hex,"cls":class,"aux":str,"p":process,"h":handle,"inst":primitive,"k":n} *)
 (*                                                one randomized call of the real code  *)
 (*   {"ev":"end","n":count}                       the history of the key is complete    *)
 (* Every emit is Freshness!Emit with the fields RandomFields cuts out of the logged      *)
-(* output; NoRepeat is judged after every call, the uniformity conditions at "end".      *)
+(* output; NoRepeat is judged after every call, the uniformity conditions at "end", both  *)
+(* on the whole history and on the sub-history of every input class.                      *)
 (* The calls of one key come from several primitive instances, several handles and two   *)
 (* OS processes (fields p/h/inst; they are provenance only).                             *)
 EXTENDS RandomFields, Json, IOUtils
@@ -19,11 +22,12 @@ F == INSTANCE Freshness
 
 NoKey == [kind |-> "none", cfg |-> [variant |-> "NO_PREFIX"]]
 
-Init == l = Start /\ bad = <<>> /\ mon = F!NewMon(<<>>) /\ cur = NoKey
+Init == l = Start /\ bad = <<>> /\ mon = F!NewFamily(<<>>, {}) /\ cur = NoKey
 
 Reset(e) ==
   /\ cur' = [kind |-> e.kind, cfg |-> e.cfg]
-  /\ F!Start(RandomFieldsOf(e.kind, e.cfg))
+  /\ F!WellFormedFields(RandomFieldsOf(e.kind, e.cfg))
+  /\ mon' = F!NewFamily(RandomFieldsOf(e.kind, e.cfg), {e.classes[i] : i \in DOMAIN e.classes})
   /\ bad' = <<>>
 
 EmitEv(e) ==
@@ -33,13 +37,16 @@ EmitEv(e) ==
      /\ IF cur.kind = "none" THEN UNCHANGED mon /\ bad' = <<"coverage: emit before reset", "">>
         ELSE IF ~FramingOK(cur.kind, cur.cfg, out)
           THEN UNCHANGED mon /\ bad' = <<"coverage: output does not have the wire-format framing of its key type", e.out>>
-        ELSE /\ F!Emit(RandomValuesOf(cur.kind, cur.cfg, out, aux))
-             /\ bad' = F!RepeatVerdict(mon')
+        ELSE LET vals == RandomValuesOf(cur.kind, cur.cfg, out, aux)
+                 cls  == IF "cls" \in DOMAIN e THEN e.cls ELSE "all"
+             IN /\ F!LayoutOK(mon["all"], vals) /\ cls \in DOMAIN mon
+                /\ mon' = F!EmitFamily(mon, cls, vals)
+                /\ bad' = F!FamilyRepeatVerdict(mon')
 
 EndEv(e) ==
   /\ UNCHANGED <<mon, cur>>
-  /\ bad' = IF e.n # mon.n THEN <<"coverage: end event count differs from the calls read", ToString(mon.n)>>
-            ELSE F!EndVerdict(mon)
+  /\ bad' = IF e.n # mon["all"].n THEN <<"coverage: end event count differs from the calls read", ToString(mon["all"].n)>>
+            ELSE F!FamilyEndVerdict(mon)
 
 Next ==
   /\ l <= Len(Trace)
